@@ -227,12 +227,19 @@ func (machj *Machine_json) Dejsoner() *Machine {
 	result.Op = make([]Opcode, len(machj.Op))
 	for i, opname := range machj.Op {
 
-		EventuallyCreateInstruction(opname)
+		if _, err := EventuallyCreateInstruction(opname); err != nil {
+			panic("loading machine: opcode " + opname + " cannot be created: " + err.Error())
+		}
 
 		for _, op := range Allopcodes {
 			if op.Op_get_name() == opname {
 				result.Op[i] = op
 			}
+		}
+
+		// An opcode that is not known has to stop the loading, a nil entry would be used later on
+		if result.Op[i] == nil {
+			panic("loading machine: unknown opcode " + opname)
 		}
 	}
 	result.Threaded = machj.Threaded
